@@ -30,6 +30,9 @@ CONSTANTS
   SeiSet,      \* session expiry intervals to consider: subset of {"zero", "finite", "never"}  (C17)
   ReR,         \* Receive Maximum values the CONNACK of a second connection may announce (C10 across connections)
   ReM,         \* Maximum Packet Size values it may announce, 0 = none (C12 across connections)
+  Handshake,   \* "none": the model starts with run() serving an established connection; "plain" / "auth": it starts inside
+               \* connect() - operations may be started and polled (their requests wait in the channel) before the CONNACK
+               \* arrives; with "auth" the server first sends an AUTH challenge that the user answers with authorize()
   RecordSched, \* TRUE: keep the behaviour as a harness script in `sched` (simulation export); FALSE: sched stays empty
   Dev          \* deviations switched on
 
@@ -70,13 +73,14 @@ Sch(step) == sched' = IF RecordSched THEN Append(sched, step) ELSE sched
 CtxT == <<"ctx", 0>>
 
 Init ==
-  /\ S = InitS(Rmax, Msz) /\ msgQ = <<>> /\ netIn = <<>> /\ netEnd = "open" /\ ph = "run" /\ cret = <<>>
+  /\ S = InitS(Rmax, IF Handshake = "none" THEN Msz ELSE 0)   \* (nothing is served before the CONNACK; its limits are set by HsConnack)
+  /\ msgQ = <<>> /\ netIn = <<>> /\ netEnd = "open" /\ ph = (IF Handshake = "none" THEN "run" ELSE "conn") /\ cret = <<>>
   /\ ops = [o \in Ops |-> NoOp] /\ sts = [o \in Ops |-> NoSt]
   /\ nextPid = 1 /\ nextSid = 1 /\ handles = 1
   /\ bk = {} /\ bq2 = {} /\ nIn = 0 /\ nCancel = 0 /\ nSpur = 0 /\ nTag = 0
   /\ resumeQ = <<>> /\ nResume = 0
-  /\ woken = {CtxT}
-  /\ \E sei0 \in SeiSet : g = [sei |-> sei0, R |-> Rmax, M |-> Msz, out |-> 0, ids |-> {}, req |-> <<>>, acked |-> {}, subs |-> {}, rx2 |-> {}, exp |-> [o \in Ops |-> <<>>], yielded |-> [o \in Ops |-> {}],
+  /\ woken = (IF Handshake = "none" THEN {CtxT} ELSE {})
+  /\ \E sei0 \in SeiSet : g = [sei |-> sei0, R |-> Rmax, M |-> Msz, chal |-> 0, allocs |-> <<>>, out |-> 0, ids |-> {}, req |-> <<>>, acked |-> {}, subs |-> {}, rx2 |-> {}, exp |-> [o \in Ops |-> <<>>], yielded |-> [o \in Ops |-> {}],
           discW |-> FALSE, causes |-> {}, unacked |-> <<>>, owed |-> <<>>, everSent |-> <<>>, bad |-> {}]
   /\ sched = <<>>
 
@@ -126,7 +130,8 @@ DoPollOp(o, spurious) ==
                     THEN [g2 EXCEPT !.bad = @ \cup {<<"C06", "outcome">>}] ELSE g2
               \* C14: after the context is gone every poll ends the operation with ContextExited (or its earlier result)
               g4 == IF ph = "gone" /\ ~gone THEN [g3 EXCEPT !.bad = @ \cup {<<"C14", "pending-after-context-gone">>}] ELSE g3
-          IN g4
+              \* the order in which identifiers were handed out (for the proviso of C11 only)
+          IN [g4 EXCEPT !.allocs = IF first /\ UsesId(k) /\ ph # "gone" THEN Append(@, o) ELSE @]
 
 PollOp(o) ==
   /\ ops[o].st \in {"built", "wait1", "wait2"} /\ Task("op", o) \in woken
@@ -394,6 +399,29 @@ ResumeWritesD(St) ==
 Marker(age) == [NoPk EXCEPT !.t = "DECIDE", !.tag = age]
 Deciding == resumeQ # <<>> /\ Head(resumeQ).t = "DECIDE"
 
+\* the handshake (C13 first responses are checked on the code by the `first` family; here it matters for what may
+\* happen BEFORE it completes and for where the connection's limits come from)
+HsChallenge ==        \* the server answers CONNECT with an AUTH challenge: connect() returns it to the user
+  /\ Handshake = "auth" /\ ph = "conn" /\ nResume = 0 /\ g.chal = 0
+  /\ ph' = "auth" /\ g' = [g EXCEPT !.chal = 1]
+  /\ UNCHANGED <<S, msgQ, netIn, netEnd, cret, ops, sts, nextPid, nextSid, handles, bk, bq2, nIn, nCancel, nSpur, nTag, resumeQ, nResume, woken, sched>>
+
+HsAuthorize ==        \* the user calls authorize(): AUTH written, waiting again
+  /\ ph = "auth"
+  /\ ph' = "conn"
+  /\ UNCHANGED <<S, msgQ, netIn, netEnd, cret, ops, sts, nextPid, nextSid, handles, bk, bq2, nIn, nCancel, nSpur, nTag, resumeQ, nResume, woken, g, sched>>
+
+HsConnack ==          \* the CONNACK (to connect() or to authorize()) announces the connection's limits; the user starts run().
+                      \* Deviations: the identifier counters are reset when the CONNACK says "no session present" (seeded change
+                      \* C11f); the Maximum Packet Size is taken only from a CONNACK that answers connect() itself (C12d)
+  /\ ph = "conn" /\ nResume = 0 /\ (Handshake = "auth" => g.chal = 1)
+  /\ S' = [S EXCEPT !.R = Rmax, !.quota = Rmax, !.M = IF D("LimitOnlyFromPlainConnack") /\ g.chal = 1 THEN 0 ELSE Msz]
+  /\ nextPid' = IF D("ResetCountersOnConnack") THEN 1 ELSE nextPid
+  /\ nextSid' = IF D("ResetCountersOnConnack") THEN 1 ELSE nextSid
+  /\ ph' = "run" /\ woken' = woken \cup {CtxT}
+  /\ Sch([a |-> "handshake", auth |-> (Handshake = "auth")])
+  /\ UNCHANGED <<msgQ, netIn, netEnd, cret, ops, sts, handles, bk, bq2, nIn, nCancel, nSpur, nTag, resumeQ, nResume, g>>
+
 Reconnect(age) ==     \* set_up + connect on a new transport; run() not yet polled.  The CONNACK of the new connection announces its
                       \* own Receive Maximum and Maximum Packet Size (absent = 65535 / no limit); the exchanges in flight keep their
                       \* slots.  Deviations: the quota is reset on every CONNACK (before 9cb500e); a CONNACK without Maximum Packet
@@ -464,7 +492,7 @@ BrokerAck(r, rc) ==
 
 \* inbound PUBLISH: new message, or (QoS 2) the re-delivery of an unreleased one
 BrokerPublish(q, id, dup, sidsel) ==
-  /\ nIn < MaxIn /\ netEnd = "open" /\ ph # "gone" /\ q \in InQos /\ id \in InIds
+  /\ nIn < MaxIn /\ netEnd = "open" /\ ph \in {"run", "ret"} /\ q \in InQos /\ id \in InIds
   /\ sidsel \in SUBSET {r[2] : r \in g.subs} /\ Cardinality(sidsel) <= 2
   /\ LET open == {b \in bq2 : b[1] = id}
          isRe == q = 2 /\ open # {}
@@ -485,7 +513,7 @@ BrokerPublish(q, id, dup, sidsel) ==
   /\ UNCHANGED <<S, msgQ, netEnd, ph, cret, ops, sts, nextPid, nextSid, handles, bk, nCancel, nSpur, resumeQ, nResume, g>>
 
 BrokerPubrel(id) ==
-  /\ nIn < MaxIn /\ netEnd = "open" /\ ph # "gone" /\ \E b \in bq2 : b[1] = id
+  /\ nIn < MaxIn /\ netEnd = "open" /\ ph \in {"run", "ret"} /\ \E b \in bq2 : b[1] = id
   /\ netIn' = Append(netIn, Ack("PUBREL", id))
   /\ bq2' = {b \in bq2 : b[1] # id}
   /\ nIn' = nIn + 1
@@ -513,6 +541,7 @@ Next ==
   \/ \E o \in Ops, k \in Kinds : Call(o, k)
   \/ \E o \in Ops : PollOp(o) \/ SpurPollOp(o) \/ DropOp(o) \/ PollSt(o) \/ SpurPollSt(o) \/ DropSt(o)
   \/ DropHandle
+  \/ HsChallenge \/ HsAuthorize \/ HsConnack
   \/ CtxResend \/ CtxResumeDecide \/ (\E age \in {"before", "after"} : Reconnect(age))
   \/ CtxTakeMsg \/ CtxTakePkt \/ CtxSeesEnd \/ CtxSeesNoHandles \/ CtxReturn \/ CtxYield \/ CtxSpur \/ CtxDrop
   \/ \E r \in bk, rc \in Reasons \cup {0} : BrokerAck(r, rc)
@@ -571,11 +600,15 @@ Live_C16 == \A o \in Ops : (ops[o].st \in {"wait1", "wait2"} /\ ops[o].slot # <<
 
 TypeOK ==
   /\ S.quota \in 0..MaxR /\ g.out \in 0..(2 * MaxR + 1) /\ nextPid \in 0..IdN
-  /\ ph \in {"run", "ret", "gone"} /\ Len(cret) <= 1
+  /\ ph \in {"conn", "auth", "run", "ret", "gone"} /\ Len(cret) <= 1
 
 \* state constraint: the proviso of C11 (an identifier is not allocated a second time while its first use is outstanding
 \* only if fewer than IdN identifiers are allocated meanwhile) - behaviours beyond it are cut
-Proviso == Cardinality(g.ids) < IdN
+\* (an operation holds its identifier from its first poll - possibly long before the packet is written - until it is
+\* done; fewer than IdN identifiers may be handed out after its own while it holds it)
+Holding(o) == ops[o].st \in {"wait1", "wait2"} \/ (ops[o].st = "dropped" /\ ops[o].req.id \in g.ids)
+Proviso == /\ Cardinality(g.ids) < IdN
+           /\ \A i \in 1..Len(g.allocs) : Holding(g.allocs[i]) => Len(g.allocs) - i < IdN
 
 \* schedule export for replay into the real client (simulation mode): one JSON line per behaviour.
 \* SimSpec adds a closing step once the behaviour cannot be extended (or is long enough); the
